@@ -1,9 +1,9 @@
 SPECIFICATION Spec
 CONSTANT Size = 6
 CONSTANT Big = 1000
-CONSTANT Validated = FALSE
+CONSTANT Validated = TRUE
 CONSTANT SumValidated = TRUE
-CONSTANT Rounds = 1
+CONSTANT Rounds = 0
 INVARIANT Proportional
 PROPERTY Terminates
 CHECK_DEADLOCK FALSE
